@@ -52,7 +52,11 @@ ExprSeq ==
         EPipe(EUpdate(EPath(C), EPipe(ESelf, EPath(A))), ESelf),
         \* assignment under several context nodes: both sides are relative to each node
         EPipe(EPipe(EPath(A), ESplat), EAssign(EPath(A), EPath(B))), EPipe(ESplat, EAssign(EPath(A), EPath(A))), EPipe(EPipe(EPath(A), ESplat), EAssign(EPath(B), ENul("LENGTH"))),
-        ECollect(EPipe(EPipe(EPath(A), ESplat), EPipe(EAssign(EPath(C), EPath(A)), EPath(C)))), EPipe(EPipe(EPath(A), ESplat), EBin("ADD_ASSIGN", EPath(A), EPath(A))) >>
+        ECollect(EPipe(EPipe(EPath(A), ESplat), EPipe(EAssign(EPath(C), EPath(A)), EPath(C)))), EPipe(EPipe(EPath(A), ESplat), EBin("ADD_ASSIGN", EPath(A), EPath(A))),
+        \* compound assignment under several context nodes: `.a[] | (.a += .b)` adds every element's OWN .b
+        EPipe(EPipe(EPath(A), ESplat), EBin("ADD_ASSIGN", EPath(A), EPath(B))), EPipe(EPipe(EPath(A), ESplat), EBin("SUBTRACT_ASSIGN", EPath(A), EPath(A))),
+        EPipe(EPipe(EPath(A), ESplat), EBin("MULTIPLY_ASSIGN", EPath(A), EBin("ALTERNATIVE", EPath(B), ELit(IntV(3))))), EPipe(ESplat, EBin("ADD_ASSIGN", EPath(A), ELit(IntV(1)))),
+        EPipe(ESplat, EBin("ADD_ASSIGN", EIndex(0), EIndex(1))), EPipe(EUnion(EPath(B), EPath(A)), EBin("ADD_ASSIGN", EIndex(0), ENul("LENGTH"))) >>
   \* with(p; u): the path is created like the left side of an assignment; `with(p; . = v)` is `p = v`
   \o FlatMap(LAMBDA p : [i \in 1..4 |-> EWith(p, EAssign(ESelf, Vals1[i]))], Paths1)
   \o FlatMap(LAMBDA p : [i \in 1..3 |-> EWith(p, EUpdate(ESelf, Upd1[i]))], Paths1)
